@@ -19,7 +19,7 @@ from pysparkling import Context
 ID = 'C01'
 KERNELS = ['Gen/Parallelize.v: par_take', 'Gen/Parallelize.v: par_single', 'Gen/Layout.v: coalesce_plan',
            'Gen/StatCounter.v: sc_merge', 'Gen/StatCounter.v: sc_mergeStats']
-SHARD = 200
+SHARD = 400
 
 
 # --------------------------------------------------------------------------- function library (Python half)
@@ -101,10 +101,23 @@ def op_mul(a, b):
     return a * b
 
 
+LIMIT = 20000   # no accumulator of a generated case gets anywhere near this on a correct implementation
+
+
+def _guard(r):
+    """a broken implementation (e.g. a zero value shared between partitions) can make accumulators double
+    per partition: turn that into an exception instead of exhausting the machine's memory"""
+    if isinstance(r, (list, tuple, str)) and len(r) > LIMIT:
+        raise OverflowError('accumulator exploded')
+    return r
+
+
 def op_extend(a, b):
     """in place: mutates and returns its first argument"""
     if type(a) is not list or type(b) is not list:  # pylint: disable=unidiomatic-typecheck
         raise TypeError('lists expected')
+    _guard(a)
+    _guard(b)
     a.extend(b)
     return a
 
@@ -113,6 +126,7 @@ def op_append(a, x):
     """in place: mutates and returns its first argument"""
     if type(a) is not list:  # pylint: disable=unidiomatic-typecheck
         raise TypeError('list expected')
+    _guard(a)
     a.append(x)
     return a
 
@@ -134,7 +148,7 @@ def op_pairadd(a, b):
 
 
 OP = [
-    ('op_add', lambda a, b: a + b),
+    ('op_add', lambda a, b: _guard(a + b)),
     ('op_max', op_max),
     ('op_mul', op_mul),
     ('op_sub', lambda a, b: a - b),
@@ -745,7 +759,7 @@ def generate(rng, tier):
     # (1) exhaustive small scope: single stages
     small_inputs = list(_inputs_upto(ints, 3)) + [x for x in _inputs_upto(mixed, 3) if x]
     stages = all_single_stages()
-    keep = {0: 1.0, 1: 1.0, 2: 0.4, 3: 0.06} if quick else {0: 1.0, 1: 1.0, 2: 1.0, 3: 1.0}
+    keep = {0: 1.0, 1: 1.0, 2: 0.3, 3: 0.04} if quick else {0: 1.0, 1: 1.0, 2: 1.0, 3: 1.0}
     for xs in small_inputs:
         for st in stages:
             if rng.random() >= keep[len(xs)]:
@@ -771,7 +785,7 @@ def generate(rng, tier):
             cases.append((copy.deepcopy(xs), n, [(T_MAP, 4)], (A_COUNT,)))
             cases.append((copy.deepcopy(xs), n, [(T_ZIPWITHINDEX,), (T_COALESCE, 3)], (A_FIRST,)))
     # (2) random pipelines
-    for _ in range(1500 if quick else 30000):
+    for _ in range(1200 if quick else 30000):
         cases.append(gen_pipeline(rng))
     return cases
 
